@@ -308,4 +308,52 @@ pub mod three {
     harness! { fn c05_one_of3_find() unwind(5) { corpus3(3) } }
     harness! { fn c05_one_of3_find_borrow() unwind(5) { corpus3(4) } }
     harness! { fn c05_one_of3_iter_destroy() unwind(5) { corpus3(5) } }
+
+    /// Several OneOf parameters in ONE query, used purely as filters and therefore all named `_`
+    /// (the only parameter name a closure may repeat): each filter constrains the match set on its
+    /// own. `OneOf<X0, X1>` holds for R0 and R1, `OneOf<X1, X2>` for R1 and R2: only R1 has both.
+    pub fn two_filters(q: u8) {
+        let mut world = WQ3::with_capacity(WQ3Capacity { r_0: 1, r_1: 1, r_2: 1 });
+        let mut n = [0usize; 3];
+        let mut a = 0;
+        while a < 3 {
+            n[a] = sym::any_usize();
+            sym::assume(n[a] <= 1);
+            a += 1;
+        }
+        let mut hs: [Option<EntityAny>; 3] = [None; 3];
+        if n[0] == 1 { hs[0] = Some(world.create::<R0>((X0(0 + 0), X3(0 + 12))).into_any()); }
+        if n[1] == 1 { hs[1] = Some(world.create::<R1>((X3(16 + 12), X1(16 + 4))).into_any()); }
+        if n[2] == 1 { hs[2] = Some(world.create::<R2>((X2(32 + 8), X3(32 + 12))).into_any()); }
+        let mut calls = [0usize; 3];
+        match q {
+            0 => ecs_iter!(world, |_: &OneOf<X0, X1>, _: &OneOf<X1, X2>, e: &EntityAny, k: &X3| { assert!(k.0 >> 4 == e.archetype_id()); calls[e.archetype_id() as usize] += 1; }),
+            1 => ecs_iter_borrow!(world, |e: &EntityAny, _: &OneOf<X1, X2>, k: &X3, _: &OneOf<X0, X1>| { assert!(k.0 >> 4 == e.archetype_id()); calls[e.archetype_id() as usize] += 1; }),
+            2 => {
+                let mut a = 0;
+                while a < 3 {
+                    if let Some(h) = hs[a] {
+                        let r = ecs_find!(world, h, |_: &OneOf<X0, X1>, _: &OneOf<X1, X2>, k: &X3| k.0);
+                        assert!(r.is_some() == (a == 1), "ecs_find! with two anonymous OneOf filters: Some exactly for the archetype satisfying both");
+                        if r.is_some() { calls[a] += 1; }
+                        let r = ecs_find_borrow!(world, h, |_: &OneOf<X1, X2>, k: &X3, _: &OneOf<X0, X1>| k.0);
+                        assert!(r.is_some() == (a == 1), "ecs_find_borrow! with two anonymous OneOf filters");
+                    }
+                    a += 1;
+                }
+            }
+            _ => ecs_iter_destroy!(world, |_: &OneOf<X0, X1>, e: &EntityAny, _: &OneOf<X1, X2>| { calls[e.archetype_id() as usize] += 1; EcsStepDestroy::ContinueDestroy }),
+        }
+        assert!(calls[0] == 0 && calls[2] == 0 && calls[1] == n[1], "a query with two anonymous OneOf filters acts on exactly the archetypes satisfying BOTH");
+        if q == 3 {
+            assert!(world.r_0.len() == n[0] && world.r_1.len() == 0 && world.r_2.len() == n[2], "ecs_iter_destroy! with two anonymous OneOf filters destroyed in an archetype that satisfies only one");
+        }
+        cover!(n[0] == 1 && n[1] == 1 && n[2] == 1, "all three archetypes populated");
+        std::mem::forget(world);
+    }
+
+    harness! { fn c05_two_filters_iter() unwind(5) { two_filters(0) } }
+    harness! { fn c05_two_filters_iter_borrow() unwind(5) { two_filters(1) } }
+    harness! { fn c05_two_filters_find() unwind(5) { two_filters(2) } }
+    harness! { fn c05_two_filters_iter_destroy() unwind(5) { two_filters(3) } }
 }
